@@ -208,3 +208,42 @@ def apply_substitutions(lines, subs):
         for p, ch in d.items(): t[int(p)] = ch
         out[int(ln)] = ''.join(t)
     return out
+
+
+# ---------------------------------------------------------------------------
+# derived listings (C07 file tier): result sets that print more tables than the first one
+
+def derive(lines, kind):
+    """A copy of a TOUGH2-style listing in which some tables are not printed at some result
+    sets.  kind = 'late-<t>[+<t>]': tables t are removed from the FIRST result set;
+    'final-<t>[+<t>]': removed from every result set except the last (what TOUGH2 does when
+    only its final printout is complete, as in tests/listing/TOUGH2/11).  A table is removed
+    from the line after the separator that precedes its first header up to and including the
+    separator that ends it."""
+    if not kind: return list(lines)
+    mode, names = kind.split('-', 1)
+    names = names.split('+')
+    lines = list(lines)
+    fam = cc.family_of(lines)
+    sets = scan_sets(lines, fam)
+    bounds = [s['pos'] for s in sets] + [len(lines)]
+    which = [0] if mode == 'late' else list(range(len(sets) - 1))
+    for ik in reversed(which):
+        cuts = []
+        for i in range(bounds[ik], bounds[ik + 1]):
+            nk = cc._is_header(lines[i])
+            if nk is None: continue
+            k = cc._kind(lines[i].split(), nk)
+            if k in names and not any(a <= i <= b for a, b, _ in cuts) and k not in [c[2] for c in cuts]:
+                s0 = i
+                while s0 > bounds[ik] and not is_separator(lines[s0]): s0 -= 1
+                s1, seen = i + 1, False
+                while s1 < bounds[ik + 1]:
+                    if seen and is_separator(lines[s1]): break
+                    if cc._FLOATISH.search(lines[s1]) and header_signature(lines[s1]) is None: seen = True
+                    s1 += 1
+                if s1 >= bounds[ik + 1] or not is_separator(lines[s0]): raise ValueError('derive(%s): table %s at result set %d not delimited' % (kind, k, ik))
+                cuts.append((s0 + 1, s1, k))
+        if sorted(c[2] for c in cuts) != sorted(names): raise ValueError('derive(%s): result set %d does not print %s' % (kind, ik, names))
+        for a, b, _ in sorted(cuts, reverse=True): del lines[a:b + 1]
+    return lines
